@@ -17,6 +17,7 @@ rc=$?
 cp -f "$D/evidence.bak" evidence/$ID.json 2>/dev/null
 grep -E "VIOLATION|KNOWN-FINDING|INCONCLUSIVE|^OK|^----" "$D/out.txt" | head -8
 echo "MUTANT $(basename "$PATCH") check=$ID tier=$TIER exit=$rc"
-# replays written for mutants are not kept
+# replays written for mutants are not kept (unless KEEP_REPLAY=<file> asks for the first one)
+if [ -n "${KEEP_REPLAY:-}" ]; then f=$(ls replays/$ID/*.json 2>/dev/null | head -1); [ -n "$f" ] && cp "$f" "$KEEP_REPLAY"; fi
 rm -rf replays/C[0-9]*
 exit 0
